@@ -152,6 +152,10 @@ def _grad_reads(fn: ast.FunctionDef, param: str):
                 if isinstance(lp, ast.For) and isinstance(lp.target, ast.Name) and lp.target.id == iv and isinstance(lp.iter, ast.Name) \
                         and any(x is n for x in ast.walk(lp)):
                     forms.add("indexed:" + norm(n.value.value.value))
+                # the same as a comprehension: [t.cores[i].grad for i in core_indices]
+                if isinstance(lp, (ast.ListComp, ast.GeneratorExp)) and lp.elt is n and len(lp.generators) == 1 and isinstance(lp.generators[0].target, ast.Name) \
+                        and lp.generators[0].target.id == iv and isinstance(lp.generators[0].iter, ast.Name) and not lp.generators[0].ifs:
+                    forms.add("indexed:" + norm(n.value.value.value))
     return forms
 
 
